@@ -340,7 +340,7 @@ class Interp:
                 elif "ix" in e:
                     proj.append(("ix",))
                 elif "ci" in e:
-                    proj.append(("ix",))
+                    proj.append(("ix", e["ci"]) if not e.get("from_end") and isinstance(e["ci"], int) else ("ix",))
                 else:
                     proj.append(("ix",))
             else:
@@ -362,6 +362,16 @@ class Interp:
                 elif isinstance(e, dict) and "ci" in e and not e.get("from_end"):
                     idx = e["ci"]
             cut = next(i for i, e in enumerate(loc[1]) if e[0] in ("ix", "?"))
+            if isinstance(idx, int) and not isinstance(idx, bool) and loc[1][cut][0] == "ix":
+                # an element of an array whose elements are known (an aggregate built in this function)
+                bv = S.read((loc[0], loc[1][:cut]))
+                while isinstance(bv, tuple) and bv[0] == "upd" and not any(p and p[0][0] == "ix" for p, _ in bv[2]):
+                    bv = bv[1]
+                if isinstance(bv, tuple) and bv[0] == "agg" and bv[1] == "array" and 0 <= idx < len(bv[3]):
+                    v = project(bv[3][idx], loc[1][cut + 1:]) if loc[1][cut + 1:] else bv[3][idx]
+                    if sv_type(v) is None and isinstance(v, tuple) and v[0] not in ("agg", "ref", "upd", "k"):
+                        set_ty(v, tykey(place.ty))
+                    return v
             v = ("elem", self.site(self.counter), idx, (loc[0], loc[1][:cut]))
             set_ty(v, tykey(place.ty))
             return v
@@ -885,7 +895,14 @@ class Interp:
             if ty is not None and ty.get("k") in ("ref", "ptr"):
                 mut = ty.get("mut", True)
             if mut:
-                S.havoc(v[1], self.site())
+                loc = v[1]
+                # a mutable slice view: what changes is the storage it is a view of
+                of = S.mem.get((loc[0], (("of",),))) if loc[0][0] == "V" else None
+                if isinstance(of, tuple) and of[0] == "ref":
+                    # the view itself (what it points at, its extent) stays; its bytes are those of the storage
+                    S.havoc(of[1], self.site())
+                else:
+                    S.havoc(loc, self.site())
         elif v[0] == "agg" or v[0] == "upd":
             items = v[3] if v[0] == "agg" else [v[1]] + [x for _, x in v[2]]
             for x in items:
